@@ -12,6 +12,11 @@ pub fn run(prop: &'static str, replay: Option<String>) -> i32 {
     }
     let thorough = rep.is_thorough();
     let (mut grammars, family_names) = bfam::family(prop, thorough);
+    if prop != "C03" && prop != "C11" {
+        // grammars with hidden left recursion are accepted by lelwel but their parsers overflow the stack
+        // (known finding of C03); running them elsewhere only re-discovers that crash
+        grammars.retain(|g| !g.hidden_left_recursion());
+    }
     if let Some(n) = std::env::var("VERIF_FAMILY_LIMIT").ok().and_then(|s| s.parse::<usize>().ok()) {
         grammars.truncate(n); // experiments only
     }
